@@ -381,6 +381,13 @@ def boundary_terms(rng: random.Random, n):
             out.append(T("SignExt", t, ints=(1,)))
             out.append(T("Concat", t, t))
             out.append(T("Reverse", t))
+        # rotate / shift / mask shapes with extreme amounts (the 32/64-bit rotate-mask rule computes masks with them)
+        for k1 in consts:
+            for k2 in (consts[-1], consts[len(consts) // 2], BVV(1, W), BVV(W - 1 if W > 1 else 0, W)):
+                rot = T("__or__", T("__lshift__", x, k2), T("LShR", x, k1))
+                out.append(T("__and__", rot, BVV(0xff & m, W)))
+                out.append(T("__and__", T("__or__", T("LShR", x, k2), T("__lshift__", x, k1)), BVV(m >> 1, W)))
+                out.append(T("__and__", T("RotateLeft", x, k1), BVV(1, W)))
         out.append(T("Reverse", x))
         out.append(T("Reverse", BVV(m >> 1, W)))
         out.append(T("Reverse", T("Concat", x, BVV(0, 1))))
